@@ -735,7 +735,8 @@ and attribute assignment) yields equal observations — or failure in both — a
 Written bytes are claimed equal when the files are canonical (`canon = true`); values always. -/
 theorem step_preserves (k : Cfg) (hn : 0 < k.nF) (hfc : k.fixedConcat = true) (hfs : k.fixedSetattr = true)
     (canon : Bool) (op : Op) (ls : List Lazy) (es : List Eager)
-    (h : RAll k.nF ls es) (hcan : canon = true → CanonAll k.nF k.join ls) (hok : OpOK k.nF op ls) :
+    (h : RAll k.nF ls es) (hcan : canon = true → CanonAll k.nF k.join ls) (hok : OpOK k.nF op ls)
+    (hw : canon = true → k.modWrite = true ∧ k.eagerWrite = true) :
     ((stepLazy k op ls).1 = (stepEager k op es).1 ∨ (op.isWrite = true ∧ canon = false)) ∧
     RAll k.nF (stepLazy k op ls).2 (stepEager k op es).2 ∧
     (canon = true → CanonAll k.nF k.join (stepLazy k op ls).2) := by
@@ -884,11 +885,14 @@ theorem step_preserves (k : Cfg) (hn : 0 < k.nF) (hfc : k.fixedConcat = true) (h
     | some l =>
       obtain ⟨e, he, hr⟩ := RAll_some _ _ _ h a l hl
       simp only [stepLazy, stepEager, hl, he, hfs, if_true]
-      refine ⟨?_, h, hcan⟩
       cases hcb : canon with
-      | false => exact Or.inr ⟨rfl, rfl⟩
+      | false =>
+        refine ⟨Or.inr ⟨rfl, rfl⟩, ?_, fun hf => absurd hf (by decide)⟩
+        split <;> split <;> exact h
       | true =>
-        left
+        obtain ⟨hm, he'⟩ := hw hcb
+        simp only [hm, he', Bool.not_true, Bool.false_and, Bool.false_eq_true, if_false]
+        refine ⟨Or.inl ?_, h, fun _ => hcan hcb⟩
         rw [write_equal k.nF hn k.join l e hr (canon_of_getElem? _ _ _ (hcan hcb) a l hl)]
 
 /-! ### programs -/
@@ -928,14 +932,15 @@ theorem RAll_ofFile (nF : Nat) (bufs : List (List FRow)) :
 
 /-- **C05.programs** — for canonical files: every finite sequence of public operations gives the same observation
 trace (lengths, columns, rows, written BYTES, or failure) on the lazy and on the eager register file -/
-theorem programs (k : Cfg) (hn : 0 < k.nF) (hfc : k.fixedConcat = true) (hfs : k.fixedSetattr = true) (ops : List Op) :
+theorem programs (k : Cfg) (hn : 0 < k.nF) (hfc : k.fixedConcat = true) (hfs : k.fixedSetattr = true)
+    (hmw : k.modWrite = true) (hew : k.eagerWrite = true) (ops : List Op) :
     ∀ (ls : List Lazy) (es : List Eager), RAll k.nF ls es → CanonAll k.nF k.join ls → RunOK k ops ls →
       runLazy k ops ls = runEager k ops es := by
   induction ops with
   | nil => intro ls es _ _ _; rfl
   | cons op ops ih =>
     intro ls es h hcan hok
-    obtain ⟨s1, s2, s3⟩ := step_preserves k hn hfc hfs true op ls es h (fun _ => hcan) hok.1
+    obtain ⟨s1, s2, s3⟩ := step_preserves k hn hfc hfs true op ls es h (fun _ => hcan) hok.1 (fun _ => ⟨hmw, hew⟩)
     simp only [runLazy, runEager]
     rcases s1 with s1 | s1
     · rw [s1, ih _ _ s2 (s3 rfl) hok.2]
@@ -951,6 +956,7 @@ theorem programs_values (k : Cfg) (hn : 0 < k.nF) (hfc : k.fixedConcat = true) (
   | cons op ops ih =>
     intro ls es h hok
     obtain ⟨s1, s2, _⟩ := step_preserves k hn hfc hfs false op ls es h (fun hf => absurd hf (by decide)) hok.1
+      (fun hf => absurd hf (by decide))
     simp only [runLazy, runEager, maskWrites]
     rw [ih _ _ s2 hok.2]
     rcases s1 with s1 | s1
@@ -962,11 +968,11 @@ observationally equivalent under every operation sequence -/
 theorem lazy_eager_equiv (k : Cfg) (hn : 0 < k.nF) (hfc : k.fixedConcat = true) (hfs : k.fixedSetattr = true)
     (bufs : List (List FRow)) (ops : List Op) (hok : RunOK k ops (bufs.map Lazy.ofFile)) :
     maskWrites ops (runLazy k ops (bufs.map Lazy.ofFile)) = maskWrites ops (runEager k ops (bufs.map (Eager.ofFile k.nF))) ∧
-    ((∀ b ∈ bufs, Canon k.nF k.join b) →
+    ((∀ b ∈ bufs, Canon k.nF k.join b) → k.modWrite = true → k.eagerWrite = true →
       runLazy k ops (bufs.map Lazy.ofFile) = runEager k ops (bufs.map (Eager.ofFile k.nF))) := by
   refine ⟨programs_values k hn hfc hfs ops _ _ (RAll_ofFile k.nF bufs) hok, ?_⟩
-  intro hc
-  apply programs k hn hfc hfs ops _ _ (RAll_ofFile k.nF bufs) _ hok
+  intro hc hmw hew
+  apply programs k hn hfc hfs hmw hew ops _ _ (RAll_ofFile k.nF bufs) _ hok
   intro l hl
   simp only [List.mem_map] at hl
   obtain ⟨b, hb, rfl⟩ := hl
@@ -976,8 +982,8 @@ theorem lazy_eager_equiv (k : Cfg) (hn : 0 < k.nF) (hfc : k.fixedConcat = true) 
 
 def demoRow (a b : Nat) : FRow := ⟨[a, 9, b, 10], [⟨[a], [a]⟩, ⟨[b], [b]⟩]⟩
 def demoJoin (fs : List Bytes) : Bytes := (match fs with | [] => [] | f :: r => r.foldl (fun acc x => acc ++ [9] ++ x) f) ++ [10]
-def demoCfg : Cfg := ⟨2, demoJoin, true, true, true⟩
-def demoCfgK : Cfg := ⟨2, demoJoin, true, false, true⟩
+def demoCfg : Cfg := ⟨2, demoJoin, true, true, true, true, true⟩
+def demoCfgK : Cfg := ⟨2, demoJoin, true, false, true, true, true⟩
 def demoOps : List Op :=
   [.get 0 1, .replace 1 1 [(0, [[55], [56]])], .cat 0 1, .index 0 0 (.slice none none (-1)), .setattr 0 1 [[65], [66], [67]],
    .tolist 0, .write 0, .row 0 (-1)]
